@@ -386,7 +386,9 @@ impl World {
                 if let Some(h) = self.calls.get(&c) {
                     self.abandoned.insert(c);
                     emit("SysAbandon", json!({"c": c}));
-                    h.abort();
+                    // abort from inside the runtime: the aborted task joins the local run queue in order, so a batch of
+                    // abandoned calls is dropped before the dispatch (woken by the first of them) runs again
+                    self.clock.rt.block_on(async { h.abort() });
                 }
             }
             "DropClient" => {
